@@ -164,7 +164,18 @@ func runC06(c *Ctx, r *Report, tier string) {
 
 	// 4. positional
 	errField := c.mustField(r, "parseState", "err")
-	stores := c.instrs(cr, c.isStoreTo(errField))
+	var stores []ssa.Instruction // failure sites: the store itself, or the call in checkRequired that leads to it through new helpers
+	seenSite := map[ssa.Instruction]bool{}
+	for _, ci := range c.instrsCtx(cr, c.isStoreTo(errField)) {
+		site := ci.In
+		if len(ci.Frames) > 0 {
+			site = ci.Frames[0]
+		}
+		if !seenSite[site] {
+			seenSite[site] = true
+			stores = append(stores, site)
+		}
+	}
 	rets := returnsOf(cr)
 	var posStore, optStore ssa.Instruction
 	for _, st := range stores {
@@ -352,7 +363,7 @@ func runC06(c *Ctx, r *Report, tier string) {
 	}
 
 	// 5. result
-	for _, st := range stores {
+	for _, st := range c.instrs(cr, c.isStoreTo(errField)) {
 		v := c.term(st.(*ssa.Store).Val)
 		r.Check(strings.HasPrefix(v, "call:newError(ErrRequired, "), "RESULT", fname, "value stored to parseState.err", c.ipos(st), "newError(ErrRequired, msg)", "stores "+trunc(v, 120))
 	}
